@@ -6,7 +6,7 @@ import common as C
 sys.path.insert(0, C.REPO)
 from octoprint_excluderegion.GcodeParser import GcodeParser, REGEX_GCODE_LINE
 
-ALPHABET = [' ', 'N', 'G', 'T', 'X', '1', '.', '*', ';', '\\', '\r', '\n', '@']
+ALPHABET = [' ', 'N', 'G', 'T', 'X', '1', '0', '.', '*', ';', '\\', '\r', '\n', '@']
 MASK = (1 << 48) - 1
 
 
@@ -160,7 +160,7 @@ def explicit(strings, tag):
     return bad
 
 
-WORDS = ['G1', 'G01', 'g1', 'M204', 'T0', 'T 1', 'G 28', 'G92.1', 'M117', 'N12', 'N0', 'n7', 'X1.5', 'Y-2', 'E.5', 'F3000', 'S', 'P1 T2',
+WORDS = ['* 12', '*  7', 'G38.0', 'M80.0 S1', 'G1.0', 'T0.5', 'G28.00', 'N5 G1 X1 * 12', 'G1', 'G01', 'g1', 'M204', 'T0', 'T 1', 'G 28', 'G92.1', 'M117', 'N12', 'N0', 'n7', 'X1.5', 'Y-2', 'E.5', 'F3000', 'S', 'P1 T2',
          'Hello \\; world', 'a\\\\b', '\\', '*12', '*', '*1x', ';c', '; comment * 5', ' ', '  ', '\t', '@pause', '@', 'XYZ', '0', '.', '..', '1.2.3']
 
 
